@@ -54,6 +54,10 @@ func setupPrefix(args ...string) (handler.Handler6, error) {
 	if err != nil {
 		return nil, fmt.Errorf("Invalid pool subnet: %v", err)
 	}
+	if len(prefix.IP) != net.IPv6len {
+		// an IPv4 subnet parses to a 4-byte address, which the 128-bit prefix arithmetic cannot index
+		return nil, fmt.Errorf("Invalid pool subnet: %s is not an IPv6 prefix", args[0])
+	}
 
 	allocSize, err := strconv.Atoi(args[1])
 	if err != nil || allocSize > 128 || allocSize < 0 {
